@@ -1148,6 +1148,14 @@ class RTCSctpTransport(AsyncIOEventEmitter):
         """
         self._sack_needed = True
 
+        # a TSN this far beyond the cumulative TSN is outside any receive
+        # window, and a SACK gap block (16-bit offsets) could not report it
+        if (
+            uint32_gt(chunk.tsn, self._last_received_tsn)
+            and (chunk.tsn - self._last_received_tsn) % SCTP_TSN_MODULO > 0xFFFF
+        ):
+            return
+
         # mark as received
         if self._mark_received(chunk.tsn):
             return
